@@ -535,3 +535,14 @@ Proof.
   exact (boundary_step [97; 195; 169; 10; 98]%N 2 ltac:(discriminate)
            (boundary_step [195; 169; 10; 98]%N 0 ltac:(discriminate) (boundary_0 _))).
 Qed.
+
+(* a corollary of the round trip: in one unit, two character boundaries never get the same (line, column) *)
+Theorem location_injective_lemma : forall text u off1 off2 lc,
+  boundary text off1 -> boundary text off2 ->
+  file_location text off1 u = Some lc -> file_location text off2 u = Some lc -> off1 = off2.
+Proof.
+  intros text u off1 off2 [l c] B1 B2 H1 H2.
+  pose proof (fixed_roundtrip_lemma text off1 u l c B1 H1) as R1.
+  pose proof (fixed_roundtrip_lemma text off2 u l c B2 H2) as R2.
+  rewrite R1 in R2. injection R2 as R. apply Nat2Z.inj. exact R.
+Qed.
